@@ -141,7 +141,9 @@ func c14argFor(r *rand.Rand, kind string, n *int) c14arg {
 	*n++
 	switch kind {
 	case "s":
-		switch r.Intn(4) {
+		switch r.Intn(5) {
+		case 4:
+			return c14arg{"bs", "s"} // a []byte converts to a string parameter like in Go
 		case 0:
 			return c14arg{"ns", "s"}
 		case 1:
@@ -463,6 +465,17 @@ func c14builtins(c *fw.Ctx, idx int, r *rand.Rand) {
 		b := a + 1 + r.Intn(4)
 		tpl = fmt.Sprintf("{{range i, v := ints(%d, %d)}}%s{{end}}", a, b, "[{{i}}:{{v}}]")
 		cs.name, cs.want = "ints", ""
+		switch r.Intn(4) { // the other call forms of the same intent
+		case 0:
+			tpl = fmt.Sprintf("{{ %d | ints: %d | showr }}", a, b)
+			cs.name = "ints-piped-prefix"
+		case 1:
+			tpl = fmt.Sprintf("{{ %d | ints(%d) | showr }}", a, b)
+			cs.name = "ints-piped-call"
+		case 2:
+			tpl = fmt.Sprintf("{{ %d | ints(%d, _) | showr }}", b, a)
+			cs.name = "ints-slot"
+		}
 		for i, v := 0, a; v < b; i, v = i+1, v+1 {
 			cs.want += fmt.Sprintf("[%d:%d]", i, v)
 		}
@@ -483,6 +496,13 @@ func c14builtins(c *fw.Ctx, idx int, r *rand.Rand) {
 	ch := make(chan int, 5)
 	ch <- 1
 	ch <- 2
+	vars.Set("showr", func(rg jet.Ranger) string {
+		var b strings.Builder
+		for k, v, end := rg.Range(); !end; k, v, end = rg.Range() {
+			fmt.Fprintf(&b, "[%v:%v]", k.Interface(), v.Interface())
+		}
+		return b.String()
+	})
 	vars.Set("vs", sl).Set("vm", mp).Set("varr", [4]int{}).Set("vps", &ps).Set("vpps", &pps).Set("vst", struct{ A, B int }{}).Set("vch", ch).Set("vif", interface{}([]string{"a", "b", "c"})).Set("vbad", "a\xff\xfe")
 	res := jx.Run(map[string]string{"/t.jet": tpl}, "/t.jet", vars, nil, jx.NoEscape)
 	c.Eval(1)
